@@ -8,3 +8,6 @@ import Properties.C03
 #print axioms Hive.C03.run_resolved_once
 #print axioms Hive.C03.run_waiting_unresolved
 #print axioms Hive.C03.run_none_vanishes
+#print axioms Hive.C03.run_dropoff_by_picker
+#print axioms Hive.C03.run_dropoff_once
+#print axioms Hive.C03.run_on_board
